@@ -193,6 +193,7 @@ def job_lemire_cf(args):
         w = T.var("w", wlo, whi)
         leaves = ex.call("compute_float", [_i32(q), _u64(w)])
         bads = []
+        debug_bads = []
         kinds = {"definite": 0, "declined": 0, "panic": 0}
         for lf in leaves:
             B = lf.B
@@ -210,18 +211,31 @@ def job_lemire_cf(args):
                 kinds["declined"] += 1
                 ue = B.sub(exp, T.const(inv))
                 conds.append(B.band_bool(B.bnot(definite),
-                                         B.bnot(decline_contract(B, fmt, w, w, q, mant, ue, strict))))
+                                         B.bnot(decline_contract(B, fmt, w, w, q, mant, ue, False))))
+                if strict:
+                    # debug builds: slow() -> round() asserts shift = 1 - exp <= 65; a declined estimate below that is only
+                    # produced by the all-ones fallback leaf, whose reachability is a separate (number-theoretic) question
+                    dbg = B.band_bool(B.bnot(definite), B.lt(ue, T.const(-64)))
+                    if dbg is not T.FALSE:
+                        debug_bads.append(lf.guarded(dbg))
             bads.append(lf.guarded(B.disj(conds)))
         rng = random.Random(seed * 1000003 + q * 131 + lz)
         ok, msg = partition_check(leaves, [{"w": v} for v in sample_values(wlo, whi, rng)])
         if not ok:
             res.update(status="error", detail="path partition check failed: " + msg)
             return res
-        isb = res["job"] == "bell"
-        status, model, stats = decide(bads, timeout, order=BELL_ORDER if isb else None, leaf_first=isb)
+        status, model, stats = decide(bads, timeout)
         res.update(status=status, leaves=len(leaves), kinds=kinds, stats=stats, paths=ex.stats["paths"])
         if model:
             res["model"] = {"w": model.get("w")}
+        if debug_bads:
+            st2, m2, stats2 = decide(debug_bads, 5, leaf_fallback=False)
+            res["debug_shift"] = st2
+            res["debug_shift_leaves"] = len(debug_bads)
+            if m2:
+                res["debug_shift_model"] = {"w": m2.get("w")}
+            stats["queries"] += stats2["queries"]
+            stats["solver_s"] += stats2["solver_s"]
     except Exception as e:
         res.update(status="error", detail="%s: %s" % (type(e).__name__, e), tb=traceback.format_exc()[-1500:])
     res["wall_s"] = time.time() - t0
@@ -542,6 +556,97 @@ def job_bell(args):
         res.update(status=status, leaves=len(leaves), kinds=kinds, stats=stats, paths=ex.stats["paths"])
         if model:
             res["model"] = {"w": model.get("w")}
+    except Exception as e:
+        res.update(status="error", detail="%s: %s" % (type(e).__name__, e), tb=traceback.format_exc()[-1500:])
+    res["wall_s"] = time.time() - t0
+    return res
+
+
+# --------------------------------------------------------------------------
+# fast path (O-FP): Number::try_fast_path
+# --------------------------------------------------------------------------
+
+def _float_const_value(vf):
+    """Exact rational value of a float constant read from the MIR (table entry)."""
+    from fractions import Fraction
+    if vf.d[0] == "lit":
+        return Fraction(vf.d[1])
+    if vf.d[0] == "bits":
+        bits = T.evaluate(vf.d[1], {})
+        F = specs.FORMATS[vf.ty]
+        e = bits >> F["p1"]
+        f = bits & ((1 << F["p1"]) - 1)
+        M = f + ((1 << F["p1"]) if e else 0)
+        return Fraction(M) * Fraction(2) ** (max(e, 1) - F["bias"])
+    return None
+
+
+def job_fast_path(args):
+    """Number::try_fast_path::<F> for a concrete decimal exponent q, all (w, many_digits):
+       a Some(..) result is ONE IEEE multiply/divide whose operands are exact and whose exact product/quotient
+       equals w * 10^q (so that the single correctly rounded hardware operation yields RN(w*10^q));
+       never Some when digits were truncated; table indices in range (get_unchecked)."""
+    (mirpath, fmt, q, timeout) = args
+    t0 = time.time()
+    res = {"job": "fast_path", "fmt": fmt, "q": q}
+    try:
+        from fractions import Fraction
+        from mir2smt.symex import VVariant, VFloat
+        T.reset()
+        ex = Executor(get_mir(mirpath), fmt)
+        F = specs.FORMATS[fmt]
+        w = T.var("w", 0, (1 << 64) - 1)
+        many = T.boolvar("many")
+        num = VTuple([_i32(q), _u64(w), VBool(many)], "Number")
+        name = [n for n in ex.mir.items if n.endswith("::try_fast_path")][0]
+        leaves = ex.call(name, [Boxed(num)])
+        bads = []
+        nsome = 0
+        for lf in leaves:
+            B = lf.B
+            if lf.kind != "return":
+                bads.append(lf.pc_term())      # panic or out-of-bounds table access reachable
+                continue
+            v = lf.value
+            if not isinstance(v, VVariant) or v.variant == "None":
+                continue
+            nsome += 1
+            fl = v.items[0]
+            ok = T.TRUE
+            ops = [c for c in lf.log if c[0] == "float_op"]
+            if len(ops) != 1 or not isinstance(fl, VFloat) or fl.d[0] not in ("fmul", "fdiv"):
+                res.update(status="violated", detail="fast path result is not a single IEEE operation: %r" % (fl,),
+                           model={"q": q})
+                res["wall_s"] = time.time() - t0
+                return res
+            a, b = fl.d[1], fl.d[2]
+            if not (isinstance(a, VFloat) and a.d[0] == "from_int"):
+                res.update(status="violated", detail="left operand is not an integer conversion: %r" % (a,), model={"q": q})
+                res["wall_s"] = time.time() - t0
+                return res
+            mterm = a.d[1]
+            pv = _float_const_value(b) if isinstance(b, VFloat) else None
+            if pv is None or pv.denominator != 1:
+                res.update(status="violated", detail="right operand is not an exact table power: %r" % (b,), model={"q": q})
+                res["wall_s"] = time.time() - t0
+                return res
+            p = pv.numerator
+            # operand exactness: the integer must be representable (<= 2^(p1+1)) and the power must be a power of ten
+            # that the format represents exactly (checked by the table obligation; here: it is what the code read)
+            exact_int = B.le(mterm, T.const(1 << (F["p1"] + 1)))
+            # exact value identity:  m' * p == w * 10^q   (mul)   or   m' == w * 10^q * p  (div)
+            if fl.d[0] == "fmul":
+                lhs, rhs = (B.mul(mterm, T.const(p)), B.mul(w, T.const(10 ** q))) if q >= 0 else \
+                           (B.mul(B.mul(mterm, T.const(p)), T.const(10 ** (-q))), w)
+            else:
+                lhs, rhs = (mterm, B.mul(B.mul(w, T.const(10 ** q)), T.const(p))) if q >= 0 else \
+                           (B.mul(mterm, T.const(10 ** (-q))), B.mul(w, T.const(p)))
+            ok = B.band_bool(exact_int, B.band_bool(B.eq(lhs, rhs), B.bnot(many)))
+            bads.append(lf.guarded(B.bnot(ok)))
+        status, model, stats = decide(bads, timeout)
+        res.update(status=status, leaves=len(leaves), some_leaves=nsome, stats=stats)
+        if model:
+            res["model"] = {"w": model.get("w"), "many": model.get("many")}
     except Exception as e:
         res.update(status="error", detail="%s: %s" % (type(e).__name__, e), tb=traceback.format_exc()[-1500:])
     res["wall_s"] = time.time() - t0
